@@ -83,7 +83,7 @@ PENDING = "check not built yet in this session (work in progress, see DESIGN.md 
 
 checks = []
 na = []
-BATTERIES = " In addition, deterministic long-input / call-order batteries (DESIGN.md 8.1: alignment sweeps, runs and exact counts, sandwiches and multi-megabyte inputs, exhaustive pair sets, plane/byte aliases, hash-colliding pairs, owned arguments with spare capacity; DESIGN.md 8.2: extreme scale up to 64/128 MiB and 2^22 code points, default-stack threads, one mark of every combining class next to every mapped character, distinct runs with repeats, class permutations, child processes under other locales / environments, thread generations and teardown-time calls, 16 threads on distinct large inputs, comparison histories, generator configuration variants) run in the quick tier; DESIGN.md 8.3: argument views at every pointer offset, re-entrant calls, error value space, file media and non-UTF-8 lines, value relations; they were added after five rounds of adversarially seeded changes (DESIGN.md 9), whose hit rates before/after are reported there."
+BATTERIES = " In addition, deterministic long-input / call-order batteries (DESIGN.md 8.1: alignment sweeps, runs and exact counts, sandwiches and multi-megabyte inputs, exhaustive pair sets, plane/byte aliases, hash-colliding pairs, owned arguments with spare capacity; DESIGN.md 8.2: extreme scale up to 64/128 MiB and 2^22 code points, default-stack threads, one mark of every combining class next to every mapped character, distinct runs with repeats, class permutations, child processes under other locales / environments, thread generations and teardown-time calls, 16 threads on distinct large inputs, comparison histories, generator configuration variants) run in the quick tier; DESIGN.md 8.3: argument views at every pointer offset, re-entrant calls, error value space, file media and non-UTF-8 lines, value relations; they were added after five rounds of adversarially seeded changes (DESIGN.md 9), whose hit rates before/after are reported there. DESIGN.md 8.4: in-range one-bit partner lookups on one thread (C14), compare-then-enforce on one thread (C06). The thorough tier additionally runs the whole quick tier on a second build of library and harness without overflow checks / debug assertions (DESIGN.md 8.4) before the libFuzzer stage and the deep exploration."
 for p in props:
     i = p['id']
     if i in CHECKS:
@@ -120,7 +120,7 @@ m = {
  ],
  "checks": checks,
  "not_applicable": na,
- "notes": "Sensitivity: 173 seeded changes in five rounds (36 ordinary, 137 adversarial; see DESIGN.md 9 for what is and is not caught) kept under /verif/seeded with meta.json; 16 behaviour-preserving refactors x 18 checks raised no alarm. All checks: ./check <id> <quick|thorough>; exit 0 held, 1 + VIOLATION line, 2 infrastructure trouble (build failure, watchdog). Known findings: /verif/known_findings.json. Regression inputs replayed first in every run: /verif/replays/regress/.",
+ "notes": "Sensitivity: 201 seeded changes in six rounds (36 + 18 ordinary ones written from the property text alone - the latter 18/18 caught by the check of their own property without strengthening -, 147 adversarial; see DESIGN.md 9 for what is and is not caught) kept under /verif/seeded with meta.json; 16 behaviour-preserving refactors x 18 checks raised no alarm. All checks: ./check <id> <quick|thorough>; exit 0 held, 1 + VIOLATION line, 2 infrastructure trouble (build failure, watchdog). Known findings: /verif/known_findings.json. Regression inputs replayed first in every run: /verif/replays/regress/.",
 }
 json.dump(m, open(os.path.join(V, 'MANIFEST.json'), 'w'), indent=1)
 print("checks:", len(checks), "not_applicable:", len(na))
